@@ -77,6 +77,19 @@ add("C11", "chain", "model_checking", RUNE_TECH,
     RUNE_SPACE + "Oracle: the set of rune entries, their ids, names, numbers and every etched field equal the reference; name/id/etching-txid lookups are "
     "inverse; rune and reserved-rune statistics match.", CHAIN_NOTE, "DESIGN.md section 5 C11")
 
+add("C37", "chain", "model_checking",
+    "stateless deviation-bounded exhaustive exploration of block histories with an event receiver attached; event fold compared with the index after every block",
+    "Every history of the inscription suite and of the rune suite (same bounds as C03/C08) is indexed with an event receiver; the emitted events are folded in "
+    "order (using only the events and the spent inputs of the transactions they name) and the fold must reproduce inscription locations, ids, charms at creation, "
+    "the rune set, mint counts, burned totals and output balances after every block.", CHAIN_NOTE, "DESIGN.md section 5 C37")
+add("C12", "sched", "model_checking",
+    "exhaustive enumeration of update-call partitions x commit intervals x reopen points x commit mode on the real Index, differential on canonical dumps",
+    "For each history of a fixed family (dense histories of the three suites with fee-spent and unbound inscriptions, lost sats, duplicate txids, burned runes) "
+    "the last N blocks are indexed under every composition of N into update() calls, every commit interval 1..N and 5000, every reopen subset, in production and "
+    "integration-test commit mode; the content projection of the dump must equal the reference schedule's.",
+    "Schedules are the partitions / commit batches / reopen points the property names; OS-thread interleavings inside update() are not explored. "
+    "Trusted: the dump hook and the projection that drops timing and commit bookkeeping.", "DESIGN.md sections 4 (E2) and 5 C12")
+
 NOT_YET = "check not built yet in this round (see DESIGN.md build order); not claimed"
 
 def main():
